@@ -32,6 +32,15 @@ def _case(draw):
                 "scale": draw(st.sampled_from([1.0, 1.0, 3.0, 0.3])), "ulp": draw(st.sampled_from([0, 0, 1, 2]))}
     c["prime"] = draw(st.sampled_from([None, None, "inverse", "forward"]))
     c["mode"] = draw(st.sampled_from(["eval", "eval", "eval", "train"]))
+    if draw(st.integers(0, 39)) == 0:
+        # a wide linear layer whose determinant leaves the floating-point range although its logarithm is modest
+        c["shape"], c["dom"], c["ctx"] = [draw(st.sampled_from([64, 100, 128, 144]))], "R", None
+        c["spec"] = draw(st.sampled_from([{"t": "naive", "orth": False, "cache": draw(st.booleans()), "seed": draw(st.integers(0, 1000))},
+                                          {"t": "naive", "orth": True, "cache": False, "seed": draw(st.integers(0, 1000))},
+                                          {"t": "lu", "identity_init": False, "cache": draw(st.booleans()), "seed": 0}]))
+        c["init"]["regime"] = "fresh"
+        c["wscale"] = draw(st.sampled_from([1.0, 1e-3, 1e-3, 1e3]))
+        c["inp"]["n"], c["inp"]["special"], c["inp"]["ulp"] = 2, 0.0, 0
     return c
 
 
@@ -55,6 +64,13 @@ def run_case(case):
     with dtype_mode(True):
         b = zoo.instantiate(case)
         m = b.module
+        if case.get("wscale", 1.0) != 1.0:
+            with torch.no_grad():
+                if hasattr(m, "_weight"):
+                    m._weight.mul_(case["wscale"])
+                elif hasattr(m, "unconstrained_upper_diag"):
+                    m.unconstrained_upper_diag.add_(float(np.log(case["wscale"])))
+            res.labels.append("wide_scaled_linear")
         n = case["inp"]["n"]
         X, special = zoo.gen_inputs(b, n, case["inp"]["seed"], case["inp"]["special"], case["inp"]["scale"], dom=case["dom"],
                                     ulp=case["inp"].get("ulp", 0))
